@@ -254,6 +254,24 @@ def backlink (mt : Metric) (st : Store S) (id : Nat) (g : Graph) (n : Nat) : Gra
   if owned.contains id then g
   else g.setNbrs n (pruneList mt st g.m n (owned ++ [id]))
 
+/-- `add_vector`, neighbour selection: beam search from the entry point with
+`ef = max(ef_construction, 2m)`, the new node itself removed, best `m` kept -/
+def selectNeighbors (mt : Metric) (st : Store S) (g : Graph) (id : Nat) (v : List S) : List Nat :=
+  let ef := max g.efc (g.m * 2)
+  let cands := (searchInternal mt st g v ef).filter (fun c => c.id != id)
+  ((isort Scored.gt cands).take g.m).map (·.id)
+
+/-- `add_vector`, linking: the new node's list, then the back-links -/
+def linkNew (mt : Metric) (st : Store S) (g : Graph) (id : Nat) (nids : List Nat) : Graph :=
+  nids.foldl (backlink mt st id) (g.setNbrs id nids)
+
+/-- `add_vector`, last block: an entry point without neighbours is tied to the new node -/
+def fixEntry (mt : Metric) (st : Store S) (g : Graph) (entry id : Nat) : Graph :=
+  if (g.nbrsOf entry).isEmpty && id != entry then
+    let g := g.setNbrs entry (pruneList mt st g.m entry (g.nbrsOf entry ++ [id]))
+    g.setNbrs id (pruneList mt st g.m id (g.nbrsOf id ++ [entry]))
+  else g
+
 /-- `add_vector` -/
 def addVector (mt : Metric) (st : Store S) (g : Graph) (id : Nat) : Graph :=
   match vecAt st id with
@@ -261,16 +279,7 @@ def addVector (mt : Metric) (st : Store S) (g : Graph) (id : Nat) : Graph :=
   | some v =>
     match g.entry with
     | none => { g with entry := some id }
-    | some entry =>
-      let ef := max g.efc (g.m * 2)
-      let cands := (searchInternal mt st g v ef).filter (fun c => c.id != id)
-      let nids := ((isort Scored.gt cands).take g.m).map (·.id)
-      let g := g.setNbrs id nids
-      let g := nids.foldl (backlink mt st id) g
-      if (g.nbrsOf entry).isEmpty && id != entry then
-        let g := g.setNbrs entry (pruneList mt st g.m entry (g.nbrsOf entry ++ [id]))
-        g.setNbrs id (pruneList mt st g.m id (g.nbrsOf id ++ [entry]))
-      else g
+    | some entry => fixEntry mt st (linkNew mt st g id (selectNeighbors mt st g id v)) entry id
 
 /-- segment build: `for doc_id in 0..total_docs { if vector(doc_id).is_some() { add_vector } }` -/
 def buildGraph (mt : Metric) (st : Store S) (m efc : Nat) : Graph :=
